@@ -269,5 +269,20 @@ def run(ctx):
         stem = d.get("file_path_stem") if isinstance(d, dict) else None
         r4.check((stem == "stemname") == (kind == "text" and exists), f"get_definition_data[{kind}{', existing path' if exists else ''}]:stem",
                  "the file stem is set only when a file was actually read", gdd.loc(), why_fail=repr(stem))
+    # a file whose suffix is not one of the supported (lower-case) ones is still read and still names the form
+    from ..interp import Raised as _R
+
+    def h_sft(i, a, k, n):
+        raise _R("ValueError", ("not a valid SupportedFileTypes",), n, ("ValueError", "Exception", "BaseException"))
+    it = ctx.interp("C12.R4", hooks={"ext:io.BytesIO": h_bytesio, "ext:pathlib.Path": lambda i, a, k, n: path_obj(True), "new:Definition": lambda i, a, k, n: dict(k), "new:SupportedFileTypes": h_sft})
+    it.reset([])
+    created.clear()
+    try:
+        d = it.call_function(gdd, [], {"definition": mk("text")}, None, gdd.node)
+        stem = d.get("file_path_stem") if isinstance(d, dict) else None
+        r4.check(stem == "stemname" and isinstance(d.get("data"), Sym), "get_definition_data[existing path, unrecognised suffix]:stem",
+                 "the fallback form name is the file stem whether or not the suffix is a recognised type hint", gdd.loc(), why_fail=repr(d))
+    except Raised as r:
+        r4.fail("get_definition_data[existing path, unrecognised suffix]", f"evaluates ({r.exc_name}{r.exc_args})", gdd.loc())
     rules.append(r4)
     return rules
